@@ -346,6 +346,7 @@ func runC08(c *Ctx) {
 			decideObl(c, w, z, o, "O2", oblKey(o, fn, ord), lifted)
 		}
 	}
+	checkStickyErrorReported(c, "O4")
 	c.note("decode cone: %d functions, %d obligations; %d reply-sized allocations in client decoders", len(cone), nObl, nClientAlloc)
 	c.floor("O1", 40)
 
@@ -883,4 +884,59 @@ func (z *zfn) clientAxioms() {
 			}
 		}
 	})
+}
+
+// checkStickyErrorReported (C08.O4, filexfer): the filexfer Buffer records a short read in its sticky Err field and the
+// Consume methods return zero values.  A decoder built on it must end with that error (or one it tested): a constant
+// nil result after consuming reports a truncated packet as decoded.
+func checkStickyErrorReported(c *Ctx, rule string) {
+	p := c.P
+	n := 0
+	for _, fn := range p.LibFuncs() {
+		if fn.Pkg != p.Sshfx && (fn.Pkg == nil || fn.Pkg != p.Ossh) {
+			continue
+		}
+		if !strings.HasPrefix(fn.Name(), "Unmarshal") && !strings.HasPrefix(fn.Name(), "XXX_Unmarshal") {
+			continue
+		}
+		res := fn.Signature.Results()
+		if res.Len() == 0 || res.At(res.Len()-1).Type().String() != "error" {
+			continue
+		}
+		// consumes with the sticky protocol: a single-result Consume* call on a *Buffer
+		var consumes []ssa.Instruction
+		eachInstr(fn, func(in ssa.Instruction) {
+			call, ok := in.(*ssa.Call)
+			if !ok {
+				return
+			}
+			f := call.Call.StaticCallee()
+			if f == nil || !strings.HasPrefix(f.Name(), "Consume") || typeName(recvTypeOf(f)) != "Buffer" {
+				return
+			}
+			if f.Signature.Results().Len() == 1 {
+				consumes = append(consumes, in)
+			}
+		})
+		if len(consumes) == 0 {
+			continue
+		}
+		n++
+		bad := ""
+		for _, rl := range returnLeaves(fn, res.Len()-1) {
+			k, ok := rl.v.(*ssa.Const)
+			if !ok || k.Value != nil {
+				continue
+			}
+			// a nil result is fine only if no sticky consume can have happened before it
+			last := rl.block.Instrs[len(rl.block.Instrs)-1]
+			for _, cs := range consumes {
+				if cs.Block() == rl.block || blockReaches(cs.Block(), rl.block) {
+					bad = p.Pos(last.Pos())
+				}
+			}
+		}
+		c.check(bad == "", rule, fnName(fn)+" reports the buffer's error", p.Pos(fn.Pos()), "ends with buf.Err (or a tested error)", "the decoder returns a constant nil after consuming from the Buffer: a packet cut inside those fields is reported as decoded, with zero values")
+	}
+	c.check(n >= 10, rule, "filexfer decoders using the sticky error", "?", fmt.Sprintf("%d decoders", n), fmt.Sprintf("only %d decoders found", n))
 }
